@@ -403,11 +403,11 @@ impl Encoder {
                     }
                 });
 
-                self.bit_fields.push(BitField {
-                    value: quote!((#array_size) as #field_type),
-                    field_type,
-                    shift,
-                });
+                // The cast is parenthesized when the value is shifted, because
+                // `x as u8 << 3` does not parse as an expression.
+                let value = quote!((#array_size) as #field_type);
+                let value = if shift > 0 { quote!((#value)) } else { value };
+                self.bit_fields.push(BitField { value, field_type, shift });
             }
             ast::FieldDesc::ElementSize { field_id, width, .. } => {
                 let field_name = field_id.to_ident();
@@ -464,11 +464,11 @@ impl Encoder {
                         }
                     });
                 }
-                self.bit_fields.push(BitField {
-                    value: quote!(self.#field_name.len() as #field_type),
-                    field_type,
-                    shift,
-                });
+                // The cast is parenthesized when the value is shifted, because
+                // `x as u8 << 3` does not parse as an expression.
+                let value = quote!(self.#field_name.len() as #field_type);
+                let value = if shift > 0 { quote!((#value)) } else { value };
+                self.bit_fields.push(BitField { value, field_type, shift });
             }
             _ => todo!("{field:?}"),
         }
